@@ -297,7 +297,8 @@ def project_hostile(c):
     res = c.get("result", "none")
     if res == "err:Mailbox":
         res = "err:" + c.get("mailbox", "?")
-    conform = read_as is not None and case.get("kind") in ("fields", "seg_fields", "truncated", "endless")
+    is_write = entry == "sdo_write"
+    conform = (read_as is not None or is_write) and case.get("kind") in ("fields", "seg_fields", "truncated", "endless")
     log = [dict(dir=m["dir"], bytes=m["bytes"]) for m in c.get("mailbox_log", [])] if conform else []
     # the device pads what it puts into the mailbox up to the mailbox size with the fill byte: so does the model
     # (Fetched); a logged reply must have at least the 9 bytes every handler looks at
@@ -311,8 +312,12 @@ def project_hostile(c):
     # a string destination only takes valid UTF-8: replies with bytes outside ASCII in their data are left to the monitor
     if entry == "sdo_read_str" and any(b >= 128 for m in log if m["dir"] == "out" for b in m["bytes"][9:]):
         log, conform = [], False
-    return dict(case=dict(id=case["id"]), index=index, mailbox_size=case["mailbox_size"], fault="hostile", complete=False, dir="read",
-                plan=[dict(dir="read", sub=0, obj=[], data=[], dest=dest)], mailbox_log=log, obs_result=res,
+    plan = [dict(dir="read", sub=0, obj=[], data=[], dest=dest)]
+    if is_write:
+        plan = [dict(dir="write", sub=0, obj=[0, 0], data=[0xEF, 0xBE], dest=dict(kind="upto", n=4))]
+    return dict(case=dict(id=case["id"]), index=index, mailbox_size=case["mailbox_size"], fault="hostile", complete=False,
+                dir="write" if is_write else "read",
+                plan=plan, mailbox_log=log, obs_result=res,
                 value=c.get("value", []), expect_value=[], expect_result="any", server_after=[], expect_server=[],
                 counters=c.get("counters", []) if conform else [], abort_code=0, expect_abort=0, mode=case.get("kind", ""), nobj=0,
                 array=False, emergency=[0, 0], expect_emergency=[0, 0], detail=str(c.get("panic", ""))[:200],
@@ -337,8 +342,8 @@ def run_c16(sc, q, rnd):
         "one case = one SDO / SDO information call answered with scripted mailbox contents; distinct by (entry point, family, "
         "mailbox size, result, messages, frames)",
         ["Conformance (same value-or-error outcome and value as the CoE model's client fed with the logged replies) is judged "
-         "for the typed read entry points and replies whose enumerated fields (mailbox type, service, command) are valid; "
-         "random byte replies and the array / write / information entry points are judged by the monitor (orderly end, frame "
+         "for the typed read and the write entry points and replies whose enumerated fields (mailbox type, service, command) are valid; "
+         "random byte replies and the array / information entry points are judged by the monitor (orderly end, frame "
          "bound).",
          "'Never reads outside the response' is taken as memory safety of the received mailbox buffer: the model's client reads "
          "only inside the fetched mailbox, and agreement on returned values shows the code reads the same bytes."])
